@@ -559,6 +559,9 @@ func (d cffDict) readPrivate(p *parser.Parser, strings *cffStrings) (*privateInf
 	if !ok || pdOffs < 4 || pdSize < 0 {
 		return nil, errors.New("cff: missing Private DICT")
 	}
+	if int64(pdOffs)+int64(pdSize) > p.Size() {
+		return nil, invalidSince("Private DICT extends beyond the end of the data")
+	}
 
 	err := p.SeekPos(int64(pdOffs))
 	if err != nil {
